@@ -12,7 +12,7 @@ from ..simdev import SimDevice
 PROPERTY = "C06"
 LEVEL = "fault_enumeration"
 RULE = ("fault enumeration on the handshake reply: for each (token,key,nonce) triple and key form (bytes / hex string), on a "
-        "fresh client and after a previous successful authentication with other credentials: the genuine reply; every "
+        "fresh client, after a previous successful authentication with other credentials, and after an expired authentication with the same credentials: the genuine reply; every "
         "single-bit flip of the 64-byte body; every single-bit flip of marker, size, magic and type nibble; every body "
         "length 0..80 != 64; every packet type nibble in place of the reply; replies computed under 4 other keys. "
         "One execution = Device.authenticate + a following refresh against the reference device; the device-side wire "
@@ -52,7 +52,7 @@ def faults():
 
 def bounds(tier):
     return {"triples": len(triples()) if tier == "thorough" else 3, "faults_per_triple": len(faults()),
-            "key_forms": 2, "scenarios": ["fresh", "after-previous-auth"]}
+            "key_forms": 2, "scenarios": ["fresh", "after-previous-auth", "same credentials, authentication expired"]}
 
 
 def shards(tier):
@@ -60,7 +60,7 @@ def shards(tier):
     out = []
     for t in range(nt):
         for form in (0, 1):
-            for scen in (0, 1):
+            for scen in (0, 1, 2):
                 out.append((t, form, scen))
     return out
 
@@ -119,6 +119,11 @@ def execute(tidx: int, form: int, scen: int, fault):
     async def drive():
         if scen == 1:
             await ac.authenticate(prev_token, prev_key)
+        if scen == 2:
+            # authenticated with the same credentials, then the 12 h authentication lifetime lapses
+            await ac.authenticate(token, key)
+            await ac.refresh()
+            w.loop.jump(13 * 3600)
         before = (ac.token, ac.key)
         marks["start"] = len(dev.rx)
         state["armed"] = True
@@ -183,7 +188,7 @@ def judge(st: Stats, case, obs, dev, marks, tidx, scen, fault):
             if e.get("ptype") != rc.T_HANDSHAKE_REQ or e.get("token") != token:
                 prob = "something other than a handshake request with the token was sent"
                 break
-    if prob is None and scen == 0:
+    if prob is None and scen in (0, 2):
         # session must still be unauthenticated: no data packet may precede a new handshake request
         for e in post:
             if e.get("ptype") == rc.T_HANDSHAKE_REQ:
